@@ -112,6 +112,16 @@ def check(case):
                     continue
                 res["evals"] += 1
                 nons = ":floor-or-mod-of-the-own-state" if any(ref.nonsmooth_of_own_state(s_) for s_ in ref.states) else ""
+                if not nons and e.stage == "codegen":
+                    msg_ = str(e.exc)
+                    try:
+                        boolish = ref.boolean_used_arithmetically() or any(mg.boolean_valued(ref.assigns[f"d{s_}_dt"].ast, ()) for s_ in ref.states)
+                    except Exception:  # noqa: BLE001
+                        boolish = False
+                    if boolish and "Boolean" in msg_:
+                        nons = ":boolean-used-arithmetically"  # the listed C01 / C20 defect reached through the own-state derivative
+                    elif "Unsupported by" in msg_ and msg_.split(":")[1].strip().split()[0:1] == ["re"]:
+                        nons = ":unprintable-re"  # abs of an expression in the (not real-declared) time symbol: listed C01 defect
                 k = f"generation-raises{nons}:{cm.exc_site(e.exc)}" if e.stage == "codegen" else f"{e.stage}-raises:{cm.exc_name(e.exc) if e.stage != 'compile' else cm.compile_key(e.exc, set(ref.states) | set(ref.params) | set(ref.assigns))}"
                 add(k, f"{bk} generalized_rush_larsen cannot be generated ({e.stage}) although the plain module can", {"ode": text, "deltas": [delta], "points": []}, "scheme function", cm.exc_name(e.exc), str(e),
                     base=k)
